@@ -104,6 +104,11 @@ impl Transaction {
             return false;
         }
 
+        // An input whose value is not known satisfies no bound (as an Option it would pass any max_value, because None orders first)
+        if txin.satoshis.is_none() && (criteria.exact_value.is_some() || criteria.min_value.is_some() || criteria.max_value.is_some()) {
+            return false;
+        }
+
         // If exact_value is specified and doesnt match
         if criteria.exact_value.is_some() && criteria.exact_value != txin.satoshis {
             return false;
